@@ -1,10 +1,13 @@
 import SqlObjVerif.Model.Conc
+import SqlObjVerif.Model.ConcX
 import SqlObjVerif.Model.DrvUtil
 /-! Driver for C09.  Request (one line, space separated `key=value`):
     `dc=<0|1> c=<0|1> freq=<n> frac=<n> cc=<n> off=<n> strong=<i:o,…|-> weak=<i:o,…|-> db=<i,…|-> fresh=<n> pins=<o,…|->
      progs=<ops/ops/…> sched=<t,t,…|->`   with ops = `.`-joined `g<i>` `c<i>` `x<i>` `A` `C` (or `-`).
     The schedule is run, then drained (lowest enabled thread first).
-    Answer: `outs=<per thread, / separated> lock=… strong=… weak=… unfinished=… stale=… cc=… off=… tr=<t:kind,…>`. -/
+    Answer: `outs=<per thread, / separated> lock=… strong=… weak=… unfinished=… stale=… cc=… off=… tr=<t:kind,…>`
+    followed by the same run of the TRANSLATED small-step system `ConcX` (the programs of `Extracted/PyCache.lean`):
+    `xouts=… xlock=… xstrong=… xweak=… xunfinished=… xcc=… xoff=… xtr=…`. -/
 open SqlObjVerif SqlObjVerif.Conc SqlObjVerif.DrvUtil
 
 def natList? (s : String) : Option (List Nat) :=
@@ -94,6 +97,25 @@ def drainTr (n : Nat) : Nat → State → List String → State × List String
       | none => (s, tr)
     | none => (s, tr)
 
+/-! the translated system -/
+def runTrX (x : ConcX.XState) (tr : List String) : List Tid → ConcX.XState × List String
+  | [] => (x, tr)
+  | t :: ts => match ConcX.step x t with
+    | some x' => runTrX x' (s!"{t}:{((ConcX.accessX t x.g (x.th t)).map ConcX.kindX).getD "?"}" :: tr) ts
+    | none => runTrX x tr ts
+
+def drainTrX (n : Nat) : Nat → ConcX.XState → List String → ConcX.XState × List String
+  | 0, x, tr => (x, tr)
+  | fuel + 1, x, tr =>
+    match (List.range n).find? (fun t => (ConcX.step x t).isSome) with
+    | some t => match ConcX.step x t with
+      | some x' => drainTrX n fuel x' (s!"{t}:{((ConcX.accessX t x.g (x.th t)).map ConcX.kindX).getD "?"}" :: tr)
+      | none => (x, tr)
+    | none => (x, tr)
+
+def showWeakX (x : ConcX.XState) : String :=
+  joinOr "," (x.g.sh.expiredCache.map fun (k, v) => if ConcX.concOps.dead x.g.sh v then s!"{k}:dead" else s!"{k}:{v}")
+
 def handle (line : String) : String :=
   let ws := words line
   let g (k : String) : Option String := kv ws k
@@ -111,7 +133,15 @@ def handle (line : String) : String :=
     let unfinished := joinOr "," (((List.range n).filter fun t => !finished s2 t).map toString)
     let lock := match s2.lock with | none => "-" | some t => toString t
     s!"outs={outs} lock={lock} strong={showMap s2.strong} weak={showWeak s2} unfinished={unfinished} " ++
-    s!"stale={joinOr "," (s2.stale.map toString)} cc={s2.cc} off={s2.off} tr={joinOr "," tr2.reverse}"
+    s!"stale={joinOr "," (s2.stale.map toString)} cc={s2.cc} off={s2.off} tr={joinOr "," tr2.reverse} " ++
+    (let x0 := ConcX.mkInitX (dc == "1") (c == "1") strong weak db fresh freq frac cc off pins (fun t => progs.getD t [])
+     let (x1, xt1) := runTrX x0 [] (sched.filter (· < n))
+     let (x2, xt2) := drainTrX n 100000 x1 xt1
+     let xouts := joinOr "/" ((List.range n).map fun t => joinOr "," ((x2.th t).outs.map showOut))
+     let xunf := joinOr "," (((List.range n).filter fun t => !ConcX.finished x2 t).map toString)
+     let xlock := match x2.g.sh.owner with | none => "-" | some t => toString t
+     s!"xouts={xouts} xlock={xlock} xstrong={showMap x2.g.sh.cache} xweak={showWeakX x2} xunfinished={xunf} " ++
+     s!"xcc={x2.g.sh.cullCount} xoff={x2.g.sh.cullOffset} xtr={joinOr "," xt2.reverse}")
   | _, _, _, _, _, _, _, _, _, _, _, _, _ => "bad-request"
 
 def main : IO Unit := loopPure handle
